@@ -1,7 +1,7 @@
 (** C14 — Generated dictionary files are the exact image of the trained model (PARTIAL). *)
 From Coq Require Import QArith Qabs ZArith Reals List.
 From Flocq Require Import Core IEEE754.BinarySingleNaN.
-From Vib Require Import Proofs.TrainProofs Model.Float Proofs.FloatProofs.
+From Vib Require Import Proofs.TrainProofs Model.Float Proofs.FloatProofs Model.Base Model.LexCsv Model.DictGen Proofs.LexCsvProofs Proofs.LexCsvLayout Proofs.DictGenProofs.
 Import ListNotations.
 
 (** cost w = trunc(-w x scale): a higher model score gives a lower (or equal) cost *)
@@ -32,6 +32,22 @@ Proof. exact f64_costs_antitone. Qed.
 Theorem c14_f64_cost_i16 : forall sc w : f64, (-32768 <= f64_cost sc w <= 32767)%Z.
 Proof. exact f64_cost_i16. Qed.
 
+(** ** the writer itself (Model/DictGen.v: write_dictionary produces lex.csv, unk.def, matrix.def and user.csv as
+    bytes from the seed definition files and the merged model; the check of every run requires the four real files
+    to equal the model's byte for byte).
+    Whenever the seed lexicon text reads as the rows [rows] (any layout of the CSV dialect: quoted surfaces,
+    feature cells plain or quoted) with non-empty surfaces, the merged ids fit 16 bits and the writer succeeds,
+    the emitted lex.csv -- read back by the lexicon parser the dictionary builder uses -- is exactly one word
+    per seed row, in order, with the seed's surface and feature bytes and the merged model's left id, right id and
+    scaled cost [f64_cost scale weight] (composition of the layout theorem of C11 with the decimal rendering). *)
+Theorem c14_written_lexicon : forall chardef lex unk user m f rows,
+  parse_lex_csv lex = Ok (map lentry rows) ->
+  Forall seed_ok rows -> Forall (fun r => s_surface (l_head r) <> []) rows -> Forall ids_ok (mg_sets m) ->
+  write_dictionary chardef lex unk user m = Ok f ->
+  parse_lex_csv (gf_lex f) = Ok (map (emitted_entry (mg_scale m)) (combine rows (mg_sets m)))
+  /\ length (combine rows (mg_sets m)) = length rows.
+Proof. exact written_lexicon. Qed.
+
 Example c14_f64_example :
   let ws := map f64_of_bits [4612811918334230528; 13826050856027422720; 0]%Z in   (* 2.5, -0.5, 0.0 *)
   map (f64_cost (f64_scale ws)) ws = [-32767; 6553; 0]%Z.
@@ -46,3 +62,4 @@ Print Assumptions c14_trunc_mono.
 Print Assumptions c14_f64_cost_real.
 Print Assumptions c14_f64_costs_antitone.
 Print Assumptions c14_f64_cost_i16.
+Print Assumptions c14_written_lexicon.
